@@ -496,7 +496,12 @@ printf("debug> macros_parse() param count=%d\n", param_count);
 
     if (name_test == nullptr)
     {
-      if (Macros::is_letter(ch))
+      // A name starts at a letter that doesn't continue a number or a name
+      // (the h of 10h is not the parameter h).
+      if (Macros::is_letter(ch) &&
+          !(ptr > 0 && (Macros::is_letter(macro[ptr - 1]) ||
+                        Macros::is_digit(macro[ptr - 1]) ||
+                        macro[ptr - 1] == '_')))
       {
         name_test = macro + ptr;
       }
